@@ -367,13 +367,13 @@ func (s *Spec[T]) Run(t *testing.T, gen func(*rapid.T) T, quickN, thoroughN int)
 
 // Enumerate drives the spec over a finite space, completely.  next is called
 // with a yield function; all violations' first instance is persisted.
-func (s *Spec[T]) Enumerate(t *testing.T, exhaustive bool, each func(yield func(T) bool)) {
+func (s *Spec[T]) Enumerate(t *testing.T, exhaustive bool, each func(r *Recorder, yield func(T) bool)) {
 	t.Helper()
 	r := newRecorder(s.Prop + "/" + s.Name)
 	start := time.Now()
 	defer func() { r.flush(s.Prop, s.Name, s.Rule, exhaustive, start) }()
 	failed := false
-	each(func(c T) bool {
+	each(r, func(c T) bool {
 		if err := s.safeCheck(c, r); err != nil {
 			p := s.violation(c, err)
 			t.Errorf("%s/%s violated: %v (case saved to %s)", s.Prop, s.Name, err, p)
